@@ -109,8 +109,15 @@ def run_property(P, tier, seed, replay=None):
             if verdict != "violates":
                 disagreements.append((c, i, m, d))
 
+    # every finding listed in known_findings.json for this property is reported on every run, observed or not
+    listed = [k for k in core.load_known() if k.get("property") == P.prop and k.get("status") == "known"]
+    for k in listed:
+        n = sum(v for kk, v in known_hits.items() if kk.startswith(k["class"]))
+        rep.known("%s: %s (observed in %d cases this run; witness: %s)" % (k["class"], k["what"][:160], n, k.get("witness", "-")[:80]))
     for k, n in known_hits.items():
-        rep.known("%s (%d cases this run)" % (k, n))
+        if not any(k.startswith(l["class"]) for l in listed):
+            # a violation class the module recognises but the committed file does not list is NOT suppressed
+            rep.violation({"seed": seed, "spec-verdict": "violation of an unlisted known class: " + k}, [], no_input=False)
 
     # ---------- 3. verdicts
     for (c, i, m, detail) in oracle_fail[:10]:
